@@ -45,6 +45,11 @@ pub struct PartySpec {
     /// covers process-wide state (statics), which threads of one simulator process would share
     #[serde(default)]
     pub process: bool,
+    /// memory pressure (process parties only): every single allocation larger than this many
+    /// bytes fails in that process. Such a party may die (abort on allocation failure) — that is
+    /// not a C06 matter — but if it returns a circuit, it must be the same circuit.
+    #[serde(default)]
+    pub alloc_limit: Option<usize>,
 }
 
 #[derive(Clone, Debug, Serialize, Deserialize)]
@@ -123,6 +128,7 @@ fn run_process_party(prog: &ProgSpec, party: &PartySpec) -> Result<Vec<(Outcome,
     use std::io::Write;
     let exe = std::env::current_exe().map_err(|e| e.to_string())?;
     let single = World { program: prog.clone(), parties: vec![PartySpec { process: false, ..party.clone() }] };
+    let pressure = party.alloc_limit.is_some();
     let mut child = std::process::Command::new(&exe)
         .arg("c06-child")
         .env("RUST_BACKTRACE", "0")
@@ -139,7 +145,7 @@ fn run_process_party(prog: &ProgSpec, party: &PartySpec) -> Result<Vec<(Outcome,
         .map_err(|e| e.to_string())?;
     let out = child.wait_with_output().map_err(|e| e.to_string())?;
     if !out.status.success() {
-        return Err(format!("process party died: {}", out.status));
+        return Err(format!("process party died{}: {}", if pressure { " under memory pressure" } else { "" }, out.status));
     }
     let line = out.stdout.split(|b| *b == b'\n').next().unwrap_or(b"[]");
     serde_json::from_slice::<Vec<(Outcome, Vec<ProbeRec>)>>(line).map_err(|e| format!("process party output: {e}"))
@@ -173,6 +179,9 @@ pub fn judge(w: &World, r: &WorldResult) -> (Vec<Finding>, BTreeMap<String, u64>
     for (pi, (party, pr)) in w.parties.iter().zip(r.iter()).enumerate() {
         match pr {
             Ok(outs) => {
+                if party.alloc_limit.is_some() {
+                    *counters.entry("memory_pressure_party_completed".into()).or_insert(0) += 1;
+                }
                 for (si, (s, (o, _))) in party.steps.iter().zip(outs.iter()).enumerate() {
                     if s.mode == Mode::Warm {
                         *counters.entry("warm_compilations".into()).or_insert(0) += 1;
@@ -186,8 +195,7 @@ pub fn judge(w: &World, r: &WorldResult) -> (Vec<Finding>, BTreeMap<String, u64>
                 }
             }
             Err(e) => {
-                *counters.entry("party_failed".into()).or_insert(0) += 1;
-                let _ = e;
+                *counters.entry(if e.contains("memory pressure") { "process_party_died_under_memory_pressure" } else { "party_failed" }.to_string()).or_insert(0) += 1;
             }
         }
     }
@@ -313,7 +321,7 @@ fn draw_party(p: &mut Prng, fns: &[String], nconsts: usize, light: bool) -> Part
             Step { fn_name: f, opts: o, mode, perm, cap, warm_src: None }
         })
         .collect();
-    PartySpec { keys, steps, process: false }
+    PartySpec { keys, steps, process: false, alloc_limit: None }
 }
 
 const KEYWORDS: &[&str] = &[
@@ -433,8 +441,21 @@ pub fn make_world(plan: &Plan, seed: u64, idx: u64) -> (World, String, Prng) {
             warm.push(warm_step(gen::program(&mut p)));
         }
         warm.push(target.clone());
-        parties.push(PartySpec { keys, steps: vec![target], process: true });
-        parties.push(PartySpec { keys, steps: warm, process: true });
+        parties.push(PartySpec { keys, steps: vec![target.clone()], process: true, alloc_limit: None });
+        parties.push(PartySpec { keys, steps: warm, process: true, alloc_limit: None });
+        // further processes with the same keys, under memory pressure: single allocations above
+        // the limit fail. For large programs the limits 1..16 MiB are all tried: between the point
+        // where a hash table can no longer grow and the point where the gate vector can no longer
+        // grow there is a window (14k-32k, 28k-65k, 57k-131k, 114k-262k, 229k-524k gates) in which
+        // the process survives with a table that stopped growing
+        if family == "big" {
+            for lim in [1usize << 20, 2 << 20, 4 << 20, 8 << 20, 16 << 20] {
+                parties.push(PartySpec { keys, steps: vec![target.clone()], process: true, alloc_limit: Some(lim) });
+            }
+        } else if p.chance(1, 6) {
+            let lim = *p.pick(&[1usize << 20, 2 << 20, 4 << 20, 1 << 16, 1 << 18, 1 << 14]);
+            parties.push(PartySpec { keys, steps: vec![target], process: true, alloc_limit: Some(lim) });
+        }
     }
     (World { program: ProgSpec { name, src, consts }, parties }, family.to_string(), p)
 }
@@ -449,6 +470,7 @@ fn probe_parties(p: &mut Prng, n: usize, fn_name: &str, opts: Opts) -> Vec<Party
             keys: Keys { k0: p.next_u64(), k1: p.next_u64(), drift: 0 },
             steps: vec![simple_step(fn_name, opts)],
             process: false,
+            alloc_limit: None,
         })
         .collect()
 }
@@ -718,7 +740,11 @@ pub fn fidelity_child() -> i32 {
         println!("KEYS-NOT-TAKEN");
         return 2;
     }
+    if let Some(lim) = party.alloc_limit {
+        crate::ALLOC_LIMIT.store(lim, std::sync::atomic::Ordering::SeqCst);
+    }
     let outs = run_steps(&w.program, &party.steps);
+    crate::ALLOC_LIMIT.store(0, std::sync::atomic::Ordering::SeqCst);
     println!("{}", serde_json::to_string(&outs).unwrap());
     0
 }
